@@ -4,8 +4,9 @@ of the observers the translated code calls) instantiated with the model's object
 model's own (`Graph/Basic.lean`, verified against graphs.py by property C16); naturals become Python integers.
 Used by the generated driver requests and by the theorems of `Props/C11/Generated.lean`.  Import-free of Mathlib.
 -/
-import CnfgenModel.Generated.Funcs
+import CnfgenModel.Generated.FuncsAbs
 import CnfgenModel.Graph.Basic
+import CnfgenModel.Graph.Build
 namespace Cnfgen
 namespace Vars
 open Cnfgen.PyGen
@@ -24,6 +25,36 @@ def absBip (G : BipG) : AbsBipGraph where
   left_neighbors := fun v => (G.leftNeighbors v).map (·.map Int.ofNat)
   has_edge := fun u v => G.hasEdge u v
   edges := G.edges.map (fun e => ((e.1 : Int), (e.2 : Int)))
+  is_bipartite := true
+
+/-- a `DirectedGraph` object, as seen by the family generators -/
+def absDi (D : DiG) : AbsDiGraph where
+  is_dag := D.isDag
+  number_of_vertices := D.n
+  vertices := ⟨1, (D.n : Int) + 1⟩
+  predecessors := fun u => (D.predecessors u).map (·.map Int.ofNat)
+  successors := fun u => (D.successors u).map (·.map Int.ofNat)
+  in_degree := fun u => (D.inDegree u).map (fun (n : Nat) => (n : Int))
+  out_degree := fun u => (D.outDegree u).map (fun (n : Nat) => (n : Int))
+
+/-- a `Graph` object (simple undirected graph), as seen by the family generators -/
+def absGraph (G : SimpleG) : AbsGraph where
+  number_of_vertices := G.n
+  number_of_edges := G.m
+  vertices := ⟨1, (G.n : Int) + 1⟩
+  neighbors := fun u => (G.neighbors u).map (·.map Int.ofNat)
+  degree := fun u => (G.degree u).map (fun (n : Nat) => (n : Int))
+  has_edge := fun u v => G.hasEdge u v
+  edges := G.edges.map (fun e => ((e.1 : Int), (e.2 : Int)))
+
+/-- `Graph.complete_graph(n)`, as seen by the family generators: the model of the constructor in `Graph/Build.lean`
+(`Graph(n)` validates `n ≥ 0`, then `add_edge(u, v)` for `u < v` in the order of the two nested loops; property C15) -/
+def absCompleteGraph (n : Int) : Except Err AbsGraph :=
+  (GBuild.completeGraph n).map absGraph
+
+/-- `CompleteBipartiteGraph(L, R)` (`non_negative_int` on both sides), as seen by the variable groups -/
+def absCompleteBip (l r : Int) : Except Err AbsBipGraph :=
+  if l < 0 ∨ r < 0 then .error .valueError else .ok (absBip (BipG.complete l.toNat r.toNat))
 
 end Vars
 end Cnfgen
